@@ -629,12 +629,16 @@ fn failed_save_case(case: u64, rng: &mut Rng, rep: &mut Report) {
         }
     }
     let variant = rng.below(3);
-    mon.add_fault(
-        OpPred::kind(OpKind::AtomicWrite).path("meta.json"),
-        0,
-        FaultMode::Once,
-        std::io::ErrorKind::Other,
-    );
+    // where the save fails: the replacement of meta.json itself, the directory sync in front of
+    // it, or the directory sync BEHIND it (meta.json already replaced: memory and storage must
+    // agree on the new commit although the call returns an error)
+    let site = rng.below(4);
+    match site {
+        0 | 1 => mon.add_fault(OpPred::kind(OpKind::AtomicWrite).path("meta.json"), 0, FaultMode::Once, std::io::ErrorKind::Other),
+        2 => mon.add_fault(OpPred::kind(OpKind::SyncDir).role("updater"), 0, FaultMode::Once, std::io::ErrorKind::Other),
+        _ => mon.add_fault(OpPred::kind(OpKind::SyncDir).role("updater"), 1, FaultMode::Once, std::io::ErrorKind::Other),
+    }
+    rep.observe("failed_save_site", ["atomic-write", "atomic-write", "dir-sync-before", "dir-sync-after-rename"][site as usize]);
     ex.errors_are_violations = false;
     let what = match variant {
         0 => {
@@ -703,7 +707,7 @@ fn failed_save_case(case: u64, rng: &mut Rng, rep: &mut Report) {
         rep.violation(sig, json!({"case": case, "variant": what, "detail": d}));
     }
     if fired {
-        rep.nontrivial(format!("failed-save:{what}:nseg={nseg}:gc_deleted={}", present_before.len() - present_after.len().min(present_before.len())));
+        rep.nontrivial(format!("failed-save:{what}:site={site}:nseg={nseg}:gc_deleted={}", present_before.len() - present_after.len().min(present_before.len())));
     }
 }
 
